@@ -127,18 +127,33 @@ func c01frames(stack string) string {
 
 const c01budget = 100000
 
-// c01drive runs one text through one entry point of the library on env, on its own goroutine so that a call that
-// never returns is observed instead of hanging the worker.
+// c01drive runs one text through one entry point of the library on env. A text that names a waiting primitive
+// (channels, goroutines) runs on its own goroutine and is given up after 15 s (the goroutine stays blocked, which is
+// harmless). Every other text runs synchronously: if it does not return, the engine's watchdog ends the worker after
+// 90 s without progress and attributes the death to this execution (group witness + "#index"), which is then
+// replayed alone three times before it is believed. (An abandoned goroutine that is still *running* would race with
+// later executions on the process-wide type registry.)
 func c01drive(env *zygo.Zlisp, entry string, text string) c01out {
+	if !c01mayWait(text) {
+		return c01driveSync(env, entry, text)
+	}
 	done := make(chan c01out, 1)
-	go func() {
-		var o c01out
+	go func() { done <- c01driveSync(env, entry, text) }()
+	select {
+	case o := <-done:
+		return o
+	case <-time.After(15 * time.Second):
+		return c01out{class: "timeout"}
+	}
+}
+
+func c01driveSync(env *zygo.Zlisp, entry string, text string) (o c01out) {
+	func() {
 		defer func() {
 			if x := recover(); x != nil {
 				st := string(debug.Stack())
 				o = c01out{class: "panic", text: fmt.Sprint(x) + " @" + c01frame(st), stack: c01frames(st)}
 			}
-			done <- o
 		}()
 		zygo.VerifSetStepBudget(c01budget)
 		var v zygo.Sexp
@@ -212,12 +227,7 @@ func c01drive(env *zygo.Zlisp, entry string, text string) c01out {
 		}
 		o = c01out{class: "value", text: clipS(v.SexpString(nil), 40)}
 	}()
-	select {
-	case o := <-done:
-		return o
-	case <-time.After(60 * time.Second):
-		return c01out{class: "timeout"}
-	}
+	return o
 }
 
 // names whose calls may legitimately wait for ever (another goroutine, a channel, the terminal)
@@ -259,7 +269,7 @@ func c01group(c *engine.Ctx, gw string, setup func(env *zygo.Zlisp), cases []c01
 		if upTo >= 0 && i > upTo {
 			break
 		}
-		c.Beat()
+		c.SetSub(i)
 		if i == 7 && c.Evals%5 == 0 {
 			c.AddSample(cs.entry + ": " + cs.text)
 		}
@@ -283,11 +293,8 @@ func c01group(c *engine.Ctx, gw string, setup func(env *zygo.Zlisp), cases []c01
 				c.Violation("no-value-no-error", "C01/gonil/"+cs.entry, w, fmt.Sprintf("%s returned neither a value nor an error\n  text: %q", cs.entry, clipS(cs.text, 400)))
 			}
 		case "timeout":
-			if c01mayWait(cs.text) {
-				c.Count("waiting_not_judged", 1)
-			} else if report {
-				c.Violation("no-return", "C01/no-return/"+cs.entry, w, fmt.Sprintf("%s did not return within 60 s although the step budget (%d VM steps) was not used up\n  text: %q", cs.entry, c01budget, clipS(cs.text, 400)))
-			}
+			// only texts that name a waiting primitive run with a timeout: counted, not judged
+			c.Count("waiting_not_judged", 1)
 			timeouts++
 			env = c01env()
 			if setup != nil {
@@ -608,9 +615,9 @@ func c01nestGroups(c *engine.Ctx, only string, upTo int) {
 	fams := []fam{{"(", "", ")"}, {"[", "", "]"}, {"{", "", "}"}, {"(a ", "1", ")"}, {"[1 ", "2", "]"}, {"{a = ", "1", "}"}, {"^", "a", ""}, {"~", "a", ""}, {"%", "a", ""}, {"(quote ", "a", ")"},
 		{"(fn [] ", "1", ")"}, {"(begin ", "1", ")"}, {"(let [x ", "1", "] x)"}, {"(cond true ", "1", " 0)"}, {"(and ", "1", ")"}, {"^(", "a", ")"}, {"(list ", "1", ")"}, {"(hash a: ", "1", ")"}, {"a.", "b", ""}, {"-", "1", ""}, {"(not ", "true", ")"},
 		{"((fn [x] ", "1", ") 1)"}, {"(+ 1 ", "1", ")"}, {"{1 + ", "1", "}"}, {"{(", "1", ")}"}, {"\"", "", "\""}, {"/*", "", "*/"}, {"'", "", ""}, {"&", "a", ""}, {"$", "a", ""}, {":", "a", ""}}
-	depths := []int{1, 2, 3, 5, 10, 50, 200, 1000}
+	depths := []int{1, 2, 3, 5, 10, 50, 200, 600}
 	if c.Thorough() {
-		depths = append(depths, 5000, 20000)
+		depths = append(depths, 1500)
 	}
 	for fi, f := range fams {
 		gw := fmt.Sprintf("N|%d", fi) + c01tier(c)
@@ -812,7 +819,7 @@ func init() {
 		Level: "exploration",
 		Rule: "(T) every string of <=3 (thorough 4) tokens over a 60-token alphabet, joined with and without blanks, x 10 wrappers (bare, macexpand, quote, syntax-quote, eval, infix block, function body, call head, array, call argument) through EvalString, LoadString+Run, the REPL line path (parse, continuation, infix wrap, EvalExpressions, stack-trace/print) and the parser alone; " +
 			"(K) every bound name, macro and special form x every argument vector of length 0..2 (thorough 3) over 24 value/form kinds, and 41 kinds of value in call-head position with the same vectors; (F) every top-level form of the 111 corpus scripts, after the forms before it, under every prefix, single-token deletion, duplication, neighbour swap and replacement by 8 (thorough 18) tokens; " +
-			"(N) 31 nesting families at depths 1..1000 (thorough 20000), closed, unclosed and over-closed, through eval, REPL, parser, compiler and printer; (C) hand list + alphabet through zygo -c, REPL on stdin and script file. Oracle: the call returns a value or an error (no escaping panic, no process death, no Go-nil result), and returns within 60 s unless the 100000-step budget ran out",
+			"(N) 31 nesting families at depths 1..600 (thorough 1500; some parsers are quadratic in the nesting depth), closed, unclosed and over-closed, through eval, REPL, parser, compiler and printer; (C) hand list + alphabet through zygo -c, REPL on stdin and script file. Oracle: the call returns a value or an error (no escaping panic, no process death, no Go-nil result), and returns: a call still running after 90 s although the 100000-step VM budget is not used up ends the worker (watchdog) and is confirmed by three solitary replays",
 		Assumptions:   []string{"texts that name channel / goroutine primitives may wait for ever and are counted, not judged, when they do", "functions acting on the outside world (" + strings.Join(c01withheld, ", ") + ", sys) are replaced by failing stubs", "allocation sizes between 2^31 and 2^62 are not in the value menu (out-of-memory is not explored)"},
 		QuickDeadline: 170 * time.Second,
 		Run:           func(c *engine.Ctx) { c01all(c, "", -1) },
